@@ -7,6 +7,7 @@ import DaskModel.Model.MapBlocks
 import DaskModel.Model.Meta
 import DaskModel.Model.Rewrite
 import DaskModel.Model.FuseSlice
+import DaskModel.Model.OptBW
 import DaskModel.Generated.FuseRules
 open Dask
 
@@ -460,6 +461,41 @@ def hMetaBlocks : Handler := handler fun a => match a with
       | _, _ => false))
   | _ => none
 
+/-! C10: the grouping decision of `_optimize_blockwise`, the condition of `fuse_roots` -/
+/-- `(bw (deps…) conc ann (annKeys…) (outInd…) ((name ind|none)…))` -/
+def toOLayer? : SExp → Option Dask.OptBW.Layer
+  | .list [bw, deps, conc, ann, af, oi, inds] => do
+    let inds ← (← inds.toList?).mapM fun e => match e with
+      | .list [n, .sym "none"] => do pure ((← n.toNat?), (none : Option (List Nat)))
+      | .list [n, i] => do pure ((← n.toNat?), some (← i.toNats?))
+      | _ => none
+    pure { bw := ← bw.toBool?, deps := ← deps.toNats?, conc := ← conc.toNat?, ann := ← ann.toNat?, annKeys := ← af.toNats?,
+           outInd := ← oi.toNats?, indices := inds }
+  | _ => none
+
+/-- `(optbw (layer…) (keep…) cfg)` ↦ `(ok ((root fused (members…))…) topoOK selfOK)` | `(raised)` (fuel exhausted) -/
+def hOptBW : Handler := handler fun a => match a with
+  | [ls, keep, cfg] => do
+    let g ← (← ls.toList?).mapM toOLayer?
+    let keep ← keep.toNats?
+    let cfg ← cfg.toBool?
+    let f := Dask.OptBW.defaultFuel g
+    pure (match Dask.OptBW.optimizeGroups g keep cfg f f with
+      | none => .list [.sym "raised"]
+      | some gs => .list [.sym "ok",
+          .list (gs.map fun G => .list [SExp.ofNat G.root, SExp.ofBool G.fused, SExp.ofNats G.mem]),
+          SExp.ofBool (Dask.OptBW.topoOK g), SExp.ofBool (Dask.OptBW.selfOK g)])
+  | _ => none
+
+/-- `(fuseroots (layer…) (order…))` ↦ `(ok ((consumer (roots…))…))` | `(raised)` (a dict lookup raises KeyError) -/
+def hFuseRoots : Handler := handler fun a => match a with
+  | [ls, order] => do
+    let g ← (← ls.toList?).mapM toOLayer?
+    let order ← order.toNats?
+    pure (okOr ((Dask.OptBW.fuseRoots g order { gone := [], cleared := [], fusedR := [] }).map fun st =>
+      .list (st.fusedR.map fun p => .list [SExp.ofNat p.1, SExp.ofNats p.2])))
+  | _ => none
+
 end HlgDrv
 
 def table : List (String × Handler) := [
@@ -471,6 +507,7 @@ def table : List (String × Handler) := [
   ("bdims", HlgDrv.hBdims), ("makedims", HlgDrv.hMakeDims), ("coordmap", HlgDrv.hCoordMap),
   ("dummies", HlgDrv.hDummies), ("argcoords", HlgDrv.hArgCoords), ("argcoordsspec", HlgDrv.hArgCoordsSpec),
   ("lol", HlgDrv.hLol), ("culldeps", HlgDrv.hCullDeps), ("task", HlgDrv.hTask), ("blocks", HlgDrv.hBlocks),
+  ("optbw", HlgDrv.hOptBW), ("fuseroots", HlgDrv.hFuseRoots),
   ("fuseann", HlgDrv.hFuseAnn), ("fuserules", HlgDrv.hFuseRules), ("hlgcull", HlgDrv.hHlgCull)]
 
 def main : IO Unit := runDriver table
